@@ -11,7 +11,7 @@ Trace == ndJsonDeserialize("trace.ndjson")
 VARIABLES l, bad
 
 Dummy == [strat |-> "one", typed |-> "none", ptyped |-> "default", any |-> "none", late |-> FALSE,
-          max |-> 0, win |-> "zero", backoff |-> FALSE]
+          max |-> 0, win |-> "zero", backoff |-> FALSE, mix |-> FALSE]
 
 TNew(e) == /\ S' = InitS /\ now' = 1 /\ mb' = Empty /\ sys' = Empty /\ sigq' = <<>> /\ rst' = <<>>
            /\ cfg' = e.cfg /\ pcfg' = e.pcfg /\ nops' = 0 /\ nticks' = 0 /\ out' = [op |-> "Init"]
